@@ -320,6 +320,8 @@ pub fn take_panics() -> Vec<String> {
 struct Shared {
     evaluations: AtomicU64,
     stop: AtomicBool,
+    /// the one worker that shrinks and reports (first to fail)
+    shrinker: std::sync::atomic::AtomicUsize,
     acc: Mutex<Acc>,
 }
 
@@ -353,6 +355,7 @@ impl<F: Family> DynFamily for F {
         let shared = Arc::new(Shared {
             evaluations: AtomicU64::new(0),
             stop: AtomicBool::new(false),
+            shrinker: std::sync::atomic::AtomicUsize::new(usize::MAX),
             acc: Mutex::new(Acc::default()),
         });
         let fixed = self.fixed_cases(rc.tier);
@@ -560,6 +563,12 @@ fn worker_loop<F: Family>(
                         }
                     }
                 }
+            }
+        }
+        if r.is_err() && !failed_here.get() {
+            // only the first failing worker shrinks and reports; the others stand down
+            if shared.shrinker.compare_exchange(usize::MAX, w, Ordering::SeqCst, Ordering::SeqCst).is_err() {
+                return Ok(());
             }
         }
         r.map(|_| ())
